@@ -5,6 +5,7 @@ from math import prod
 from typing import Callable, Dict, List, Optional, Tuple, Union
 
 import jax.numpy as jnp
+import numpy as np
 import pandas as pd
 
 from jaxley.modules import Module
@@ -233,6 +234,18 @@ def integrate(
         raise ValueError("No recordings are set. Please set them.")
     rec_inds = module.recordings.rec_index.to_numpy()
     rec_states = module.recordings.state.to_numpy()
+
+    # Recordings of synaptic states and currents are indexed by the global edge
+    # index, but the states of every synapse type are stored in their own array.
+    # Convert to the index of the edge within its type.
+    _, edge_states = module._get_state_names()
+    is_edge_state = np.isin(rec_states, edge_states)
+    if np.any(is_edge_state):
+        rank_in_type = module.edges.groupby("type").rank()["global_edge_index"]
+        rank_in_type = (rank_in_type.astype(int) - 1).to_numpy()
+        rec_inds = np.where(
+            is_edge_state, rank_in_type[rec_inds * is_edge_state], rec_inds
+        )
 
     # Shorten or pad stimulus depending on `t_max`.
     if t_max is not None:
